@@ -601,7 +601,9 @@ impl Shared {
                         opts.push((E::Emit(e.clone()), matches!(e, Emit::DupRetransmit(_))));
                     }
                 }
-                if let Some(t) = wake {
+                // deterministic environment (twin families): data that is due arrives before any timer
+                let timers_allowed = !(self.cfg.broker.fifo && !opts.is_empty());
+                if let Some(t) = wake.filter(|_| timers_allowed) {
                     if t <= now {
                         opts.push((E::Repoll, false));
                     } else {
@@ -1057,7 +1059,8 @@ impl<'v> World<'v> {
             Some(Err(e)) => {
                 let res = Res::from_err(&e);
                 self.log(|| format!("api: connect -> Err({:?})", res));
-                self.sh.borrow_mut().oracle.op_end(res.rejected(), false);
+                // a refused CONNACK is reported by connect() itself; it is not an acknowledgement of a request
+                self.sh.borrow_mut().oracle.op_end(None, false);
                 self.sh.borrow_mut().close_conn(id);
                 self.last_connect_failed = true;
                 self.note_outcome(("connect", res));
@@ -1279,7 +1282,9 @@ impl<'v> World<'v> {
                 );
             }
         } else {
-            let now_dead = res.fatal() || (op == OpK::Disconnect && matches!(res, Res::Ok | Res::Transport));
+            // a broker DISCONNECT that the operation consumed ends the connection whatever the result says
+            let peer_closed = self.sh.borrow().oracle.conns[id].peer_disconnect_consumed;
+            let now_dead = peer_closed || res.fatal() || (op == OpK::Disconnect && matches!(res, Res::Ok | Res::Transport));
             if now_dead {
                 self.dead_since = Some(after);
             }
